@@ -198,13 +198,21 @@ NOT_APPLICABLE = {f'C{i:02d}': WIP for i in range(1, 20)}
 #: clauses added after the second round of seeded changes (DESIGN.md 7.8), inserted before the "Not decided" sentence
 ADDED = {
     'C02': 'The whole canonical-order pack applies: every positional sequence of parameters (also the layout of a `betas=` dictionary) follows the sorted names.',
-    'C03': 'Draws of the estimates are labelled with the requested names over the columns of those names.',
-    'C04': 'In a dictionary of formulas the log likelihood and the weight are the entries under their documented spellings (both aliases of each).',
+    'C03': 'Draws of the estimates are labelled with the requested names over the columns of those names. The labels of the sensitivity table are the requested names in both spellings of the table (dict comprehension, dict(zip(...))).',
+    'C04': 'In a dictionary of formulas the log likelihood and the weight are the entries under their documented spellings (both aliases of each). The folds of Database.split partition the rows (C13.R3 imported): no block slicing that drops the remainder.',
     'C05': 'The branch without availabilities sums the same term as the branch with them; the records of the logit classes pair each alternative with its own utility and availability.',
     'C06': 'Each builder sums the same term with and without availabilities (passing availabilities all equal to one does not change the model).',
-    'C07': 'The only definition of the reported point reaching the final evaluation and RawResults is the main optimisation (a bootstrap replication cannot replace it).',
-    'C09': 'A resampled individual map handed to the engine is replaced by the map of the data on every exit; record and operand plumbing of PanelLikelihoodTrajectory.',
-    'C10': 'The registered user generators are exactly those of the last call; leaf tables and records of draws and integration variables.',
+    'C07': 'The only definition of the reported point reaching the final evaluation and RawResults is the main optimisation (a bootstrap replication cannot replace it). An algorithm name that promises bound support is served by a function that forwards the bounds.',
+    'C09': 'A resampled individual map handed to the engine is replaced by the map of the data on every exit; record and operand plumbing of PanelLikelihoodTrajectory. The table handed to the engine is database.data, the one the panel map describes.',
+    'C10': 'The registered user generators are exactly those of the last call; leaf tables and records of draws and integration variables. Every source of randomness of the draw generators is the global numpy stream that the seed controls (no default_rng / RandomState / stdlib random).',
+    'C12': 'Overlapping nests are searched over all pairs (adjacent pairs only is a violation); no audit statement reads the variable of the formula loop after the loop.',
+    'C13': 'Rows are selected from self.data / self.individualMap only; slices of the split are not floor-division blocks.',
+    'C14': 'The patterns with which a model finds its own files again are the name templates of get_new_file_name (no wildcard directly after the model name).',
+    'C16': 'The alternative-specific parameters are laid out as get_index addresses them (outer loop over the alternatives).',
+    'C17': 'The reference category asked for reaches self.reference.',
+    'C18': 'No label or position is used as a truth value; every method of a variant that does arithmetic on the error term divides it by the scale parameter.',
+    'C19': 'The utilities of each sample cover exactly the positions of that sample.',
+    'C20': 'No value of an obsolete keyword is dropped by the renaming wrapper.',
 }
 for _pid, _sentence in ADDED.items():
     _t, _text, _ref = CLAIMED[_pid]
